@@ -175,6 +175,28 @@ def run_one(ck, prog):
     ck.floor("C09.2", "raw syscall sites", n_sites, {"A": 85, "B": 77, "C": 80, "R": 85}.get(ck.config, 70))
     ck.extra.setdefault("syscall_sites", {})[ck.config] = {"sites": n_sites, "classified": n_classified, "reviewed_table": n_table}
 
+    # ---- C09.7 a wrapper's success always comes from the kernel -------------------------------------------------------
+    # "issues the call once per invocation": no Ok return of a rusl wrapper is reachable without passing one of its raw
+    # syscall sites (a shortcut that answers without asking the kernel also skips the call's side effects).
+    n7 = 0
+    for path, fn in sorted(prog.fns.items()):
+        if fn["crate"] != "rusl" or fn["kind"] == "Closure" or "::test" in path or not fn["locals"][0]["ty"].startswith("core::result::Result<"):
+            continue
+        if not any(b["term"]["k"] == "call" and is_raw_syscall(b["term"].get("callee")) for b in fn["blocks"]):
+            continue
+        ctx = prog.ctx(fn)
+        sites = {bb for bb, t in ctx.cfg.calls(lambda t: is_raw_syscall(t.get("callee")))}
+        oks = [b["id"] for b in fn["blocks"] if b["id"] in ctx.cfg.live_blocks() and not b.get("cleanup") and
+               any(s["k"] == "assign" and s["dst"]["l"] == 0 and s["rv"]["k"] == "agg" and s["rv"].get("variant") == "Ok" for s in b["stmts"])]
+        if not oks:
+            continue
+        n7 += 1
+        r = ctx.cfg.reachable_from(0, avoid=sites)
+        bad = [b for b in oks if b in r]
+        ck.ob("C09.7", f"{path}|success-only-after-syscall", not bad, fn=path, site=ctx.site(bad[0]) if bad else None,
+              detail="the wrapper can return Ok without having issued its system call on that path (the kernel-side effect of the call, e.g. dup3 clearing O_CLOEXEC, silently does not happen)")
+    ck.floor("C09.7", "wrappers with an Ok return", n7, 40)
+
     # ---- C09.6 Fd-returning wrappers ---------------------------------------------------------------
     n = 0
     for path, fn in prog.fns.items():
